@@ -470,9 +470,10 @@ def configs(tier):
     step(2, 1, repeats=((1, 0),), it=3)
     step(2, 1, faults=1, split=48)
     step(2, 2, split=64)
+    step(2, 1, ncon=1, split=32)          # inequality constraints: the feasibility marker takes part in the ranking
     if not Q:
         step(2, 2, repeats=((0, 1),), split=64)
-        step(2, 1, ncon=1, split=32)
+        step(2, 2, ncon=1, split=96)
         step(3, 1, split=96)
     for N, m, G, F in ((2, 1, 2, 0), (2, 1, 3, 0), (2, 1, 2, 1)) if Q else ((2, 1, 2, 0), (2, 1, 3, 0), (2, 1, 2, 1), (2, 2, 2, 0), (3, 1, 2, 0)):
         out.append({'name': 'run-symbolic-N%d-m%d-G%d%s' % (N, m, G, '-faults%d' % F if F else ''), 'task': 'nsga2_run',
